@@ -17,9 +17,10 @@ EXTENDS Integers, Sequences, FiniteSets, TLC, Json, IOUtils
 Entries == {"aperture_photometry", "do_photometry", "aperture_mask", "aperture_stats", "background2d", "local_background",
             "bkg_estimators", "detect_threshold", "detect_sources", "deblend_sources", "source_finder", "source_catalog", "source_mask",
             "find_peaks", "daofinder", "iraffinder", "starfinder", "centroids", "centroid_sources", "profiles", "psf_photometry",
-            "iterative_psf", "grouper", "psf_models", "make_model_image", "isophote", "calc_total_error", "utils", "morphology"}
+            "iterative_psf", "grouper", "psf_models", "make_model_image", "isophote", "calc_total_error", "utils", "morphology",
+            "image_depth", "epsf"}
 Reps == {"ndarray", "view", "masked", "quantity"}
-Conds == {"clean", "nonfinite", "negative", "masked", "invalid"}
+Conds == {"clean", "nonfinite", "negative", "masked", "emptymask", "invalid"}
 \* entry points that take no image (their own argument kinds are varied by the adapter instead)
 NoImage == {"grouper", "psf_models", "make_model_image", "isophote", "source_mask"}
 Applicable(e, r, c) == (e \in NoImage => (r = "ndarray" /\ c \in {"clean", "invalid"}))
